@@ -93,8 +93,9 @@ var Projections = map[string]*Projection{
 		Cb: map[string]fieldSet{"*": fs("q", "def")}},
 	"C19": {Recv: map[string]fieldSet{"*": kinds},
 		Cb: map[string]fieldSet{"*": fs("q", "def", "si", "i", "mw", "cp", "sp", "addr", "tm", "live", "prevdone")}},
-	"C02": {Recv: map[string]fieldSet{"*": fs("wf", "dup", "n")},
-		Cb: map[string]fieldSet{"*": fs("q", "def")}},
+	// the grammar of every backend message: structural facts only
+	"C02": {Recv: map[string]fieldSet{"*": fs("known", "decl", "items", "parsed", "trail", "dup", "term", "mand", "st", "b", "partial", "badframe")},
+		Cb: map[string]fieldSet{"*": fs()}},
 	"C10": {SkipPreamble: true, Recv: map[string]fieldSet{"*": kinds, "E": fs("code", "fatal")},
 		Cb: map[string]fieldSet{"*": fs("q", "def")}},
 	// oversized / undersized messages during startup and authentication: the preamble is the subject
